@@ -975,6 +975,9 @@ func (fv *FnV) assign(st *State, lhs ast.Expr, v Val) {
 			return
 		}
 		st.vars[vo] = fv.nameVal(x.Name, fv.convertTo(v, vo.Type()))
+		if fv.fc != nil && fv.fc.Forget[x.Name] && len(fv.frames) == 1 && !fv.spec {
+			st.vars[vo] = fv.freshVal(x.Name, vo.Type(), st)
+		}
 	case *ast.StarExpr:
 		pt := fv.typeOf(x.X)
 		if fv.smt.isHeapPtr(pt) {
